@@ -143,3 +143,8 @@ def c_barrier_zero(ctx, it, cfg):
 from . import c20 as _c20, c19 as _c19
 REG.contracts.append(_c20.c_precip.contract)
 REG.contracts.append(_c19.c_post.contract)
+
+# a failed equilibrium inside an impingement / growth query: None for growth (handled by the fault paths above), the last valid value for the impingement rate -- never a
+# None that numpy would silently turn into NaN in the nucleation rate (C09 contract on the real MulticomponentThermodynamics methods)
+from . import c09 as _c09
+REG.contracts.append(_c09.c_mt_options.contract)
